@@ -327,3 +327,32 @@ Definition hard_lexical (d : list string) (ms : list member) : list (list string
                      end) ms.
 Definition extract_lexical (d : list string) (ms : list member) : list (list string) :=
   (map (fun m => snd (mpath d m)) ms ++ hard_lexical d ms)%list.
+
+(* ---------------------------------------------------------------- what the deployment writes itself *)
+(* expandPackageToDirectory, after the manifest has been applied: os.makedirs(<instance>/conf) unless the
+   manifest has the key "conf", then shutil.copyfile(package file, <instance>/conf/<conf_file>) — a file
+   write, which follows a link also in the last component. *)
+Definition conf_file (dsl : bool) : string := if dsl then "dsl.yaml" else "flowir_package.yaml".
+
+(* the check added by the repair of F18d (in expandPackageToDirectory, after Manifest.validate): no link
+   target may be conf or the package file inside it:  os.path.normpath(target) in ("conf", "conf/<conf_file>") *)
+Definition conf_rule (dsl : bool) (man : list entry) : bool :=
+  forallb (fun e => negb (is_link e) ||
+                    negb (list_eqb (clean (fst e)) ["conf"] || list_eqb (clean (fst e)) ["conf"; conf_file dsl])) man.
+
+(* everything the deployment checks before it creates anything *)
+Definition deploy_ok (dsl : bool) (man : list entry) : bool := validate man && conf_rule dsl man.
+
+Definition has_conf_key (man : list entry) : bool := existsb (fun e => String.eqb (fst e) "conf") man.
+
+Definition deploy_self (dsl : bool) (tgt : list string) (man : list entry) : list (list string) :=
+  ((if has_conf_key man then [] else [resolve true (mlinks tgt man) (S (length man)) (tgt ++ ["conf"])]) ++
+   [resolve false (mlinks tgt man) (S (length man)) (tgt ++ ["conf"; conf_file dsl])])%list.
+
+(* the whole deployment: nothing when the manifest is refused *)
+Definition deploy_all (dsl : bool) (tgt : list string) (man : list entry) : list (list string) :=
+  if deploy_ok dsl man then (deploy tgt man ++ deploy_self dsl tgt man)%list else [].
+
+(* case = (manifest, package file is DSL, accepted by Manifest.validate, accepted by the deployment's checks) *)
+Definition check_man2 (c : list entry * bool * bool * bool) : bool :=
+  let '(man, dsl, v, dpl) := c in Bool.eqb (validate man) v && Bool.eqb (deploy_ok dsl man) dpl.
